@@ -604,9 +604,10 @@ class BatchWorld(World):
         ctx.probe("oversize_batch")
         ran = [e[0] for e in acc.log]
         tag = "batch of %d calls (%s) with MAX_MESSAGE_SIZE=%d" % (len(calls), ov["mode"], ov["limit"])
-        if isinstance(sub_exc, E.CommunicationError):
+        refused = isinstance(sub_exc, E.ProtocolError) and any(w in str(sub_exc).lower() for w in ("size", "too large"))
+        if isinstance(sub_exc, E.CommunicationError) and not refused:
             ctx.disturbed = "oversize batch lost its connection: %s" % sub_exc
-        elif isinstance(sub_exc, E.ProtocolError) and "size" in str(sub_exc).lower():
+        elif refused:
             ctx.probe("oversize_batch_refused")
             if ran:
                 ctx.violate("oversized-batch-partially-executed", ov["mode"], "%s was refused (%s: %s) yet %d of its calls ran"
